@@ -79,6 +79,12 @@ CHECKS.update({
          "Field text never contains <1>..<8>; nil and empty lists not distinguished.", "§5 C16"),
 })
 
+CHECKS.update({
+ "C14": ("complete enumeration of sequence lengths over two periods of the line width x deviation-bounded record shapes and layouts, against the abstract record",
+         "For EVERY sequence length 1..141 (each residue class modulo the 70-column width twice) plus 210 and 5000, records with at most 2 (3 thorough) deviations from the default (region start, 0..3 features, coordinates 1..1 / len..len / interior, strand, phase, score, 1..6 attributes with blanks, %2C and commas, text from gff.Build or from an independent writer at width 70 / 60 / unwrapped, final newline, ### line) are written and parsed by the real Parse; region, full sequence, every feature field, the 1-based/0-based conversion and Feature.GetSequence() == bases start..end of the file's sequence are compared with the abstract record.",
+         "Field text free of tab/newline/;/=; features have at least one attribute.", "§5 C14"),
+})
+
 NOT_YET = {}
 
 props = [json.loads(l) for l in open('/verif/properties.jsonl')]
